@@ -271,7 +271,21 @@ def build_estimator(name, params):
             p[k] = CALLABLES[p[k]["callable"]]
     if p.get("feature_mask") is not None:
         p["feature_mask"] = np.asarray(p["feature_mask"], dtype=bool)
+    # one descriptor in six (a deterministic function of the descriptor, so a replay rebuilds the same object) reaches the
+    # estimator with its integer hyperparameters as NumPy integers - what np.arange, ParameterGrid or a CSV / JSON loader
+    # hand over; they are legal Integrals and equal to the Python values everywhere
+    from .attach import sig_hash
+    h = int(sig_hash("npint", name, params), 16)
+    if h % 6 == 0:
+        types = [np.int64, np.int32, np.intp]
+        for j, k in enumerate(sorted(p)):
+            if isinstance(p[k], int) and not isinstance(p[k], bool) and abs(p[k]) < 2 ** 31:
+                p[k] = types[(h // 6 + j) % 3](p[k])
+        STATS["estimators_built_with_numpy_integers"] = STATS.get("estimators_built_with_numpy_integers", 0) + 1
     return get_class(name)(**p)
+
+
+STATS = {}      # counters of the generators themselves (added to the shard's counters by cli.run_shard)
 
 
 def random_groups(rng, d):
